@@ -120,7 +120,13 @@ def table_outgoing(chk: Check, repo: Repo) -> None:
                 if r is True:
                     return False  # edge on which data_secure is None: not relevant
             return True
-        r = c2.reachable([c2.entry], avoid=[outc[0].id], edge_ok=skip_none_branch)
+        # the send must be unreachable once the *normal completion* of the securing assignment is removed
+        # (an exceptional exit of outgoing_cemi that is swallowed would otherwise fall through with plain data)
+        def only_failed_securing(s_, t_, lab_):
+            if s_ == outc[0].id and lab_ != "exc":
+                return False
+            return skip_none_branch(s_, t_, lab_)
+        r = c2.reachable([c2.entry], edge_ok=only_failed_securing)
         ok = send[0].id not in r
         # the frame that is sent is the object whose .data was replaced
         frame_name = ast.unparse(outc[0].ast.targets[0]).rsplit(".", 1)[0]
@@ -146,6 +152,13 @@ def check_key_issue(chk: Check, repo: Repo) -> None:
             isolated = isolated and any(any(hh.type is not None and ast.unparse(hh.type) == "Exception" for hh in t.handlers) for t in n.tries) and bool(n.loops)
     bad_q = {n for n in names_q if n.endswith("put_nowait") or "devices" in n or "telegram_received" in n}
     chk.ob("key-issue-callbacks-isolated", q.site(), bool(cb_calls) and isolated and not bad_q, "key-issue callbacks are called inside the loop, each under try/except Exception; nothing else is reached", key="key-issue-callbacks-isolated")
+    # the registry iterated while user callbacks run must tolerate (un)registration from inside a callback:
+    # a list does, a set/dict raises RuntimeError out of the receive path
+    from ..astx import attr_writes
+    ws = [w for w in attr_writes(repo, "_data_secure_group_key_issue_cbs") if w.func.module.name == "xknx.core.telegram_queue"]
+    init_ok = any(w.kind == "assign" and isinstance(getattr(w.stmt, "value", None), ast.List) and not w.stmt.value.elts for w in ws)
+    muts = sorted({w.kind for w in ws if w.kind.startswith("mutcall:")})
+    chk.ob("key-issue-registry-is-list", q.site(), init_ok and set(muts) <= {"mutcall:append", "mutcall:remove"}, f"_data_secure_group_key_issue_cbs is created as a list literal ({init_ok}) and mutated only by {muts} (a set/dict mutated by a callback during dispatch raises RuntimeError out of the receive path)", key="key-issue-registry-is-list")
 
 
 def run(chk: Check, repo: Repo) -> None:
